@@ -48,6 +48,7 @@ type callSpec struct {
 	unwrap  bool                                // f(g(..)) as a statement is the statement g(..): f only inspects the error g returns
 	bres    bool                                // the state template returns a bres over the effect names in sub: BOk results state | BRange state | BPanic p state
 	sub     []string
+	lazy    bool // only the arguments the rendering mentions are translated (the others feed a text the model does not keep)
 }
 
 type target struct {
@@ -743,6 +744,19 @@ func (x *tr) expr(e ast.Expr) string {
 			}
 		}
 		return x.use(sanitize(src(z)))
+	case *ast.CompositeLit:
+		if x.t.strict {
+			if _, isSlice := x.p.TypesInfo.TypeOf(z).Underlying().(*types.Slice); isSlice && strings.HasPrefix(x.kindOf(z), "list ") {
+				var els []string
+				for _, e := range z.Elts {
+					if _, kv := e.(*ast.KeyValueExpr); kv {
+						x.bad(z, "keyed slice literal")
+					}
+					els = append(els, x.expr(e))
+				}
+				return "[" + strings.Join(els, "; ") + "]"
+			}
+		}
 	case *ast.StarExpr:
 		if nm, ok := x.deref(z); ok {
 			return x.use(nm)
@@ -926,9 +940,12 @@ func (x *tr) expr(e ast.Expr) string {
 					x.bad(z, why)
 				}
 			}
-			args := make([]string, len(z.Args))
-			for i, a := range z.Args {
-				args[i] = x.expr(a)
+			var args []string
+			if !cs.lazy {
+				args = make([]string, len(z.Args))
+				for i, a := range z.Args {
+					args[i] = x.expr(a)
+				}
 			}
 			t := x.fillWith(cs.pure, z, args)
 			if cs.partial {
@@ -1075,7 +1092,7 @@ func (x *tr) expr(e ast.Expr) string {
 // variable, the target of a pointer) is only translated if the target hands that binder back - in its
 // final expression or as threaded effect state; otherwise the write would be lost silently
 func (x *tr) stateWrite(lhs ast.Expr, nm string) {
-	if _, isLocal := lhs.(*ast.Ident); isLocal && !strings.HasPrefix(nm, "g_") {
+	if _, isLocal := lhs.(*ast.Ident); isLocal && !strings.HasPrefix(nm, "g_") && !strings.HasPrefix(nm, "m_") {
 		return
 	}
 	for _, e := range x.t.effects {
@@ -1227,6 +1244,24 @@ func (x *tr) outerAssignedIn(stmts []ast.Stmt, lo, hi token.Pos) []string {
 	pos := map[string]token.Pos{}
 	add := func(l ast.Expr) {
 		if x.ignorable(l) {
+			return
+		}
+		if ie, ok := l.(*ast.IndexExpr); ok {
+			// m[k] = v / m[i][k] = v on a package-level map, v[i] = c on a tracked slice
+			base := ie.X
+			if inner, ok := base.(*ast.IndexExpr); ok {
+				base = inner.X
+			}
+			nm := ""
+			if name := x.pkgVar(base); name != "" {
+				nm = "m_" + name
+			} else if v, ok := x.sliceVar(base); ok {
+				nm = v
+			}
+			if nm != "" && !seen[nm] {
+				seen[nm] = true
+				out = append(out, nm)
+			}
 			return
 		}
 		var at token.Pos
@@ -1935,6 +1970,32 @@ func (x *tr) assignStrict(z *ast.AssignStmt, tail func() string) string {
 			continue
 		}
 		if ie, ok := z.Lhs[i].(*ast.IndexExpr); ok && z.Tok == token.ASSIGN {
+			// m[k] = v on a package-level map: the table binder m_<name> with the key set (overwritten if present)
+			if name := x.pkgVar(ie.X); name != "" {
+				if mt, isMap := x.p.TypesInfo.TypeOf(ie.X).Underlying().(*types.Map); isMap && x.coqType(mt.Elem()) != "?" {
+					nm := x.use("m_" + name)
+					set := "mapZ_set"
+					if x.coqType(mt.Key()) == "bytes" {
+						set = "mapB_set"
+					} else if x.coqType(mt.Key()) != "Z" {
+						x.bad(z, "map write with a key type outside the fragment")
+					}
+					x.stateWrite(ie.X, nm)
+					names = append(names, nm)
+					vals = append(vals, fmt.Sprintf("(%s %s %s %s)", set, nm, paren(x.expr(ie.Index)), paren(x.expr(z.Rhs[i]))))
+					continue
+				}
+			}
+			// m[i][k] = v on a package-level map of maps: panics when the row m[i] is missing (a nil map)
+			if inner, ok := ie.X.(*ast.IndexExpr); ok {
+				if name := x.pkgVar(inner.X); name != "" && x.kindOf(inner.Index) == "Z" && x.kindOf(ie.Index) == "Z" {
+					nm := x.use("m_" + name)
+					x.stateWrite(inner.X, nm)
+					names = append(names, nm)
+					vals = append(vals, x.partial(fmt.Sprintf("map2_set %s %s %s %s", nm, paren(x.expr(inner.Index)), paren(x.expr(ie.Index)), paren(x.expr(z.Rhs[i])))))
+					continue
+				}
+			}
 			// v[i] = c on a tracked byte slice
 			if v, ok := x.sliceVar(ie.X); ok && x.kindOf(ie.X) == "gslice" && x.kindOf(ie.Index) == "Z" && x.kindOf(z.Rhs[i]) == "Z" {
 				x.use(v)
@@ -2361,7 +2422,7 @@ func (x *tr) rangeStrict(z *ast.RangeStmt, tail func() string) string {
 		switch b := n.(type) {
 		case *ast.ReturnStmt:
 			hasRet = true
-			if len(x.named) == 0 {
+			if len(x.named) == 0 && x.t.retTy == "" {
 				x.bad(z, "return inside a loop of a function without named results")
 			}
 		case *ast.BranchStmt:
@@ -2382,13 +2443,15 @@ func (x *tr) rangeStrict(z *ast.RangeStmt, tail func() string) string {
 	if canPanic && x.t.panicT == "" {
 		x.bad(z, "operation that can panic inside a loop of a target without a panic outcome")
 	}
+	useRv := hasRet && len(x.named) == 0
 	vars := x.outerAssigned(z.Body.List)
-	if len(vars) == 0 {
+	if len(vars) == 0 && !useRv {
 		x.bad(z, "loop without a tracked effect")
 	}
 	for _, v := range vars {
 		x.use(v)
 	}
+	noneRv := "(@None " + paren(x.t.retTy) + ")"
 	// the fold state: the variables, then brk_ (the loop was left) and ret_ (.. by a return)
 	all := append([]string{}, vars...)
 	var init, cont, brk, ret []string
@@ -2396,8 +2459,12 @@ func (x *tr) rangeStrict(z *ast.RangeStmt, tail func() string) string {
 	if hasBrk || hasRet {
 		all, init, cont, brk, ret = append(all, "brk_"), append(init, "false"), append(cont, "false"), append(brk, "true"), append(ret, "true")
 	}
-	if hasRet {
+	if hasRet && !useRv {
 		all, init, cont, brk, ret = append(all, "ret_"), append(init, "false"), append(cont, "false"), append(brk, "false"), append(ret, "true")
+	}
+	if useRv {
+		// rv_: the value returned out of the loop, if any
+		all, init, cont, brk = append(all, "rv_"), append(init, noneRv), append(cont, noneRv), append(brk, noneRv)
 	}
 	wrap := func(t []string) func() string {
 		if canPanic {
@@ -2409,8 +2476,11 @@ func (x *tr) rangeStrict(z *ast.RangeStmt, tail func() string) string {
 	if hasBrk {
 		lc.brk = wrap(brk)
 	}
-	if hasRet {
+	if hasRet && !useRv {
 		lc.ret = wrap(ret)
+	}
+	if useRv {
+		lc.retv = func(v string) string { return wrap(append(append([]string{}, ret...), "Some "+paren(v)))() }
 	}
 	x.loops = append(x.loops, lc)
 	if canPanic {
@@ -2455,6 +2525,19 @@ func (x *tr) rangeStrict(z *ast.RangeStmt, tail func() string) string {
 		}
 		after = func() string {
 			return fmt.Sprintf("if (ret_ : bool) then %s\n  else %s", x.t.final, tail())
+		}
+		if useRv {
+			after = func() string {
+				parts := []string{"rv_"}
+				for _, e := range x.t.effects {
+					parts = append(parts, x.use(e))
+				}
+				v := tuple(parts)
+				if x.t.retfmt != "" {
+					v = fmt.Sprintf(x.t.retfmt, v)
+				}
+				return fmt.Sprintf("match rv_ with\n  | Some rv_ => %s\n  | None => %s\n  end", v, tail())
+			}
 		}
 	}
 	if canPanic {
